@@ -160,7 +160,9 @@ class Summaries:
         self.memo[key] = []  # recursion guard
         res = []
         for o in self.local_outcomes(body):
-            res.extend(self._expand(o, depth))
+            for x in self._expand(o, depth):
+                if not contradictory(x.conds):
+                    res.append(x)
         self.memo[key] = res
         return res
 
@@ -263,3 +265,32 @@ def decide(term, labels):
 
 def _in(idx, labels):
     return flow.lab_holds(labels, idx)
+
+
+def contradictory(conds):
+    """the same value term required to lie in two disjoint label sets (syntactic, sound pruning of infeasible rows)"""
+    by = {}
+    for t, labs, fn, w in conds:
+        by.setdefault(t, []).append(labs)
+    for t, ls in by.items():
+        if len(ls) < 2:
+            continue
+        pos = [set(l[1:]) for l in ls if l[0] == "in"]
+        neg = [set(l[1:]) for l in ls if l[0] == "notin"]
+        if pos:
+            inter = set.intersection(*pos)
+            for n in neg:
+                inter -= n
+            if not inter:
+                return True
+    return False
+
+
+def replace_where(term, pred, new):
+    if pred(term):
+        return new
+    if isinstance(term, frozenset):
+        return frozenset(replace_where(x, pred, new) for x in term)
+    if not isinstance(term, tuple):
+        return term
+    return tuple(replace_where(x, pred, new) if isinstance(x, (tuple, frozenset)) else x for x in term)
